@@ -13,6 +13,7 @@
 import XotModel.Lemmas.Axes
 import XotModel.Lemmas.ArenaExamples
 import XotModel.Lemmas.ArenaTraverse
+import XotModel.Lemmas.ArenaRevTraverse
 
 namespace XotModel.Props
 open XotModel XotModel.Axes
@@ -366,9 +367,8 @@ example : topElement (.node .document [.node (.comment []) []]) [] = .ok [] := b
 
   The theorems above take indextree's iterators "by contract" (`children`, `ancestors`, … = the
   obvious lists).  For a well-formed arena (`Arena.Rep a g`, see `Props/C04`) the pointer walks of
-  `traverse.rs` are proved to yield exactly those lists, within their limit, without panic.
-  `reverse_traverse` is modelled and compared with the crate on every run (suite `arena`), not
-  proved.
+  `traverse.rs` are proved to yield exactly those lists, within their limit, without panic
+  (`reverse_traverse` included: `C07_arena_reverse_traverse`).
   ===================================================================================== -/
 
 /-- `children`, `reverse_children` (also what xot's own `reverse_children` walks), `ancestors`
@@ -421,6 +421,20 @@ theorem C07_arena_traverse (a : Arena) (g : Arena.Shape) (r : Arena.Rep a g) (c 
   obtain ⟨l, hl⟩ := r.edges_exists c hc
   exact ⟨l, hl, fun limit hlim => ⟨r.traverse_eq hl hc limit hlim, r.descendants_eq hl hc limit hlim⟩⟩
 
+/-- `reverse_traverse` (`ReverseTraverse::next` over `NodeEdge::prev_traverse`: from `End(c)` to
+    `End(last child)` / `Start(node)`, from `Start(n)` to `End(previous sibling)` / `Start(parent)`,
+    stopping after `Start(c)`) from a live node yields exactly the edge list of its subtree
+    BACKWARDS — the reverse of what `traverse` yields, `Start` / `End` tags unchanged: `End(c)`, …,
+    `Start(c)` — whenever the limit is at least the number of edges; arena unchanged, no panic. -/
+theorem C07_arena_reverse_traverse (a : Arena) (g : Arena.Shape) (r : Arena.Rep a g) (c : Nat) (hc : Arena.Live a c) :
+    ∃ l, Arena.EdgesOf g c l ∧ ∀ limit, l.length ≤ limit →
+      Arena.reverseTraverse a (a.idAt c) limit = .done a (l.reverse.map (Arena.toEdge a)) ∧
+      ∃ es, Arena.traverse a (a.idAt c) limit = .done a es ∧
+        Arena.reverseTraverse a (a.idAt c) limit = .done a es.reverse := by
+  obtain ⟨l, hl⟩ := r.edges_exists c hc
+  exact ⟨l, hl, fun limit hlim =>
+    ⟨r.reverseTraverse_eq hl hc limit hlim, r.reverseTraverse_eq_reverse hl hc limit hlim⟩⟩
+
 /-- Non-vacuity on closed arenas (`sampleC`: `1:0 [4:0, 3:0]`, slot 2 reused as `2:1`): the
     iterators, and the defect of `Children::next_back` in 4.7.2 (`children().rev()` keeps yielding
     the last child — cut off by the limit here; xot does not call it). -/
@@ -433,6 +447,26 @@ example : Arena.children Arena.sampleC ⟨1, 0⟩ 4 = .done Arena.sampleC [⟨4,
     Arena.traverse Arena.sampleB ⟨2, 0⟩ 9 =
       .done Arena.sampleB [.start ⟨2, 0⟩, .start ⟨4, 0⟩, .end ⟨4, 0⟩, .end ⟨2, 0⟩] ∧
     Arena.childrenRev Arena.sampleC ⟨1, 0⟩ 5 = .done Arena.sampleC [⟨3, 0⟩, ⟨3, 0⟩, ⟨3, 0⟩, ⟨3, 0⟩, ⟨3, 0⟩] := by
+  decide
+
+/-- Non-vacuity of `C07_arena_reverse_traverse`: `sampleB` (`1:0 [2:0 [4:0], 3:0]`) is a
+    well-formed arena with live slots 0 and 1; `reverse_traverse` from `1:0` and from the inner node
+    `2:0` (the walk must stop at `Start(2:0)`, not run on to `Start(1:0)`) gives the reversed edge
+    lists; with a limit below the number of edges the list is cut off (`Take`). -/
+example : Arena.Wf Arena.sampleB ∧ Arena.Live Arena.sampleB 0 ∧ Arena.Live Arena.sampleB 1 :=
+  ⟨(Arena.Steps.wf Arena.sampleB_steps Arena.Wf.empty).1, ⟨_, rfl, by decide⟩, ⟨_, rfl, by decide⟩⟩
+example : Arena.reverseTraverse Arena.sampleB ⟨1, 0⟩ 9 =
+      .done Arena.sampleB [.end ⟨1, 0⟩, .end ⟨3, 0⟩, .start ⟨3, 0⟩, .end ⟨2, 0⟩, .end ⟨4, 0⟩, .start ⟨4, 0⟩,
+        .start ⟨2, 0⟩, .start ⟨1, 0⟩] ∧
+    Arena.traverse Arena.sampleB ⟨1, 0⟩ 9 =
+      .done Arena.sampleB [.start ⟨1, 0⟩, .start ⟨2, 0⟩, .start ⟨4, 0⟩, .end ⟨4, 0⟩, .end ⟨2, 0⟩, .start ⟨3, 0⟩,
+        .end ⟨3, 0⟩, .end ⟨1, 0⟩] ∧
+    Arena.reverseTraverse Arena.sampleB ⟨2, 0⟩ 9 =
+      .done Arena.sampleB [.end ⟨2, 0⟩, .end ⟨4, 0⟩, .start ⟨4, 0⟩, .start ⟨2, 0⟩] ∧
+    Arena.reverseTraverse Arena.sampleC ⟨1, 0⟩ 9 =
+      .done Arena.sampleC [.end ⟨1, 0⟩, .end ⟨3, 0⟩, .start ⟨3, 0⟩, .end ⟨4, 0⟩, .start ⟨4, 0⟩, .start ⟨1, 0⟩] ∧
+    Arena.reverseTraverse Arena.sampleB ⟨2, 0⟩ 3 =
+      .done Arena.sampleB [.end ⟨2, 0⟩, .end ⟨4, 0⟩, .start ⟨4, 0⟩] := by
   decide
 
 end XotModel.Props
